@@ -12,6 +12,7 @@ import json, os, subprocess, sys, shutil, glob, concurrent.futures, time, re
 VERIF = "/verif"
 SEEDED = os.path.join(VERIF, "seeded")
 SLOTS = "/tmp/hx"
+NSLOTS = int(os.environ.get("MV_NSLOTS", "4"))
 ENV = dict(os.environ, CARGO_NET_OFFLINE="true", CARGO_TERM_COLOR="never")
 
 TAG = ""
@@ -128,7 +129,7 @@ def main():
             sid = "%s-%s%s" % (meta["property"], TAG, os.path.basename(sub))
             if os.path.exists(os.path.join(SEEDED, sid, "meta.json")):
                 return sid, "exists"
-            r = confirm(sub, i % 4)
+            r = confirm(sub, i % NSLOTS)
             if r.get("confirmed"):
                 dst = os.path.join(SEEDED, sid)
                 os.makedirs(dst, exist_ok=True)
@@ -139,11 +140,11 @@ def main():
                 json.dump(meta, open(os.path.join(dst, "meta.json"), "w"), indent=1)
             return sid, r
         # one job per slot at a time
-        by_slot = {k: [j for n, j in enumerate(jobs) if n % 4 == k] for k in range(4)}
+        by_slot = {k: [j for n, j in enumerate(jobs) if n % NSLOTS == k] for k in range(NSLOTS)}
         def run_slot(k):
             return [work((k, j)) for j in by_slot[k]]
-        with concurrent.futures.ThreadPoolExecutor(4) as ex:
-            for lst in ex.map(run_slot, range(4)):
+        with concurrent.futures.ThreadPoolExecutor(NSLOTS) as ex:
+            for lst in ex.map(run_slot, range(NSLOTS)):
                 for sid, r in lst:
                     print(sid, r if isinstance(r, str) else {k: v for k, v in r.items() if k in ("confirmed", "applies", "builds", "suite_passes_with_patch", "demo_fails_with_patch", "demo_passes_without_patch", "error")}, flush=True)
     elif cmd == "eval":
@@ -154,7 +155,7 @@ def main():
         extra = [a.split("=")[1].split(",") for a in sys.argv if a.startswith("--extra=")]
         if not ids:
             ids = sorted(os.listdir(SEEDED))
-        by_slot = {k: [j for n, j in enumerate(ids) if n % 4 == k] for k in range(4)}
+        by_slot = {k: [j for n, j in enumerate(ids) if n % NSLOTS == k] for k in range(NSLOTS)}
         def run_slot(k):
             out = []
             for sid in by_slot[k]:
@@ -180,8 +181,8 @@ def main():
                 out.append((sid, r))
                 print(sid, {p: (v["exit"], v["signatures"][:2]) for p, v in r.items()} if "error" not in r else r, flush=True)
             return out
-        with concurrent.futures.ThreadPoolExecutor(4) as ex:
-            list(ex.map(run_slot, range(4)))
+        with concurrent.futures.ThreadPoolExecutor(NSLOTS) as ex:
+            list(ex.map(run_slot, range(NSLOTS)))
 
 if __name__ == "__main__":
     main()
